@@ -48,6 +48,9 @@ type Sim struct {
 	collIDs map[[2]int]uint32
 	dumpN   int
 	viewN   int
+	// OnIntent / OnAck let the crash engine stream every operation before it is invoked and after it returned.
+	OnIntent func(op *Op)
+	OnAck    func(st *Step, doc *Doc)
 	views   map[[2]int]*viewState
 	freshN  int
 }
@@ -191,6 +194,9 @@ func (s *Sim) Do(op Op) *Step {
 	st := Step{Op: op, PreObs: preObs, Pre: pre, CollID: s.collIDs[[2]int{op.Bucket, op.Coll}], RunProp: s.RunProp}
 	s.curOp, s.curPre = &st.Op, pre.Class()
 
+	if s.OnIntent != nil {
+		s.OnIntent(&st.Op)
+	}
 	t0 := time.Now().Unix()
 	st.Res = Exec(b, c, &st.Op)
 	t1 := time.Now().Unix()
@@ -215,6 +221,9 @@ func (s *Sim) Do(op Op) *Step {
 		s.Model[dk] = &nd
 	}
 	s.Last[dk] = st.PostObs
+	if s.OnAck != nil {
+		s.OnAck(&st, &nd)
+	}
 	if c := st.PostObs.rowCas(); c > s.MaxCas && !nd.CasByMeta {
 		s.MaxCas = c
 	}
